@@ -17,6 +17,7 @@ package helper
 func MapWithPrevious[F, T any](c <-chan F, f func(T, F) T, previous T) <-chan T {
 	mc := make(chan T)
 
+	VerifStage("MapWithPrevious", 0, []any{c}, []any{mc})
 	go func() {
 		defer close(mc)
 
